@@ -25,3 +25,9 @@ add("C14", "round-trip monitor: independent convention encoders -> Grid(ds) auto
 add("C16", "history monitor with an executable shadow registry, compared behaviourally after every call, plus one-at-a-time replay differential",
     "Every call of a generated registration history advances a small sequential model; after each call the real Grid is probed "
     "at every slot; histories <=2 over a small pool are enumerated completely, longer ones sampled.", "2/C16")
+add("C19", "postcondition monitor on result labels (coordinate set/values/attrs/name) + metamorphic re-run with removed/scrambled input labels",
+    "Every observed result is compared with the coordinate set the statement prescribes, computed from the grid dataset; "
+    "values must be identical when the same call is repeated with other input labels.", "2/C19")
+add("C11", "recording user function as probe inside apply_as_grid_ufunc; expected padded core blocks from signature + resolution + padding models",
+    "The arrays actually received by a recording function are compared (unique-id data, order-agnostic over leading axes) with "
+    "the model; options are supplied through every documented channel incl. definition-time != call-time values.", "2/C11")
